@@ -101,13 +101,14 @@ class Project:
         self.truth_ir = None
         self.stale_ir = None
         self.alias = None  # a symlink to root through which every file is named
+        self.extra = []  # further target files of an already given kind: dict(kind, path, pre)
 
     def args(self, kinds=None):
         kinds = kinds or [k for k in KINDS if k in self.files]
         d = dict(truth=self.truth)
         for k in KINDS:
             plural = {"argparse_function": "argparse_functions", "class": "classes", "function": "functions"}[k]
-            d[plural] = [self.files[k]] if k in kinds else None
+            d[plural] = ([self.files[k]] + [e["path"] for e in self.extra if e["kind"] == k]) if k in kinds else None
             d[k + "_names"] = [self.names[k]] if k in kinds else None
         return Namespace(**d)
 
@@ -117,11 +118,14 @@ class Project:
         flag = {"argparse_function": "--argparse-function", "class": "--class", "function": "--function"}
         for k in kinds:
             argv += [flag[k], self.files[k], flag[k] + "-name", self.names[k]]
+            for e in self.extra:
+                if e["kind"] == k:
+                    argv += [flag[k], e["path"]]
         return argv
 
 
 def make_project(rng, root, truth, prestates, method=False, rich=False, kinds=KINDS, wild=False, ir=None, stale_ir=None, with_return=False,
-                 via_symlink=False, hand_written=False):
+                 via_symlink=False, hand_written=False, extra_same_kind=False):
     """prestates: {kind: prestate} for the non-truth kinds.
     via_symlink: every file is named through a symlink to the project directory (abspath != realpath).
     hand_written: definitions that exist beforehand carry a comment (so re-generating them changes bytes)."""
@@ -137,14 +141,19 @@ def make_project(rng, root, truth, prestates, method=False, rich=False, kinds=KI
         stale_ir["doc"] = "Stale zqstale summary"
     p.truth_ir, p.stale_ir = ir, stale_ir
     feats = {"truth": truth, "method": method, "rich": rich, "n_kinds": len(kinds), "wild": wild}
-    for kind in kinds:
-        fn = os.path.join(root, FILE_OF[kind])
-        p.files[kind] = fn
+    todo = [(kind, os.path.join(root, FILE_OF[kind]), "truth" if kind == truth else prestates[kind], False) for kind in kinds]
+    if extra_same_kind:
+        # a second target file of the truth's own kind, whose path sorts BEFORE the truth file's
+        todo.append((truth, os.path.join(root, "a_more_" + FILE_OF[truth]), rng.choice(["stale", "absent", "missing", "agreeing", "empty"]), True))
+    for kind, fn, state, is_extra in todo:
         is_method = method and kind == "function"
         name = DEF_NAME[kind]
-        p.names[kind] = ("C_holder." + name) if is_method else name
-        state = "truth" if kind == truth else prestates[kind]
-        p.pre[kind] = state
+        if is_extra:
+            p.extra.append({"kind": kind, "path": fn, "pre": state})
+        else:
+            p.files[kind] = fn
+            p.names[kind] = ("C_holder." + name) if is_method else name
+            p.pre[kind] = state
         if state == "missing":
             continue
         if state == "empty":
@@ -173,7 +182,8 @@ def make_project(rng, root, truth, prestates, method=False, rich=False, kinds=KI
         lines += after
         if (rich or state == "absent") and rng.random() < 0.3:
             lines = ['"""Module zqdoc for {}'.format(kind), "", "second zqdoc line", '"""', ""] + lines
-            feats["{}_module_docstring".format(kind)] = True
+            if not is_extra:
+                feats["{}_module_docstring".format(kind)] = True
         if hand_written and state != "absent":
             at = next((j for j, l in enumerate(lines) if l.startswith(("def " + name, "class " + name)) or l.startswith("    def " + name)), None)
             if at is not None:
@@ -183,17 +193,22 @@ def make_project(rng, root, truth, prestates, method=False, rich=False, kinds=KI
         # how the file ends: terminated, unterminated, or unterminated with trailing blanks
         ending = rng.choice(["\n"] * 14 + ["", "", "", " ", "\t", "\n    ", "\n\n"])
         text += ending
-        feats["{}_ending".format(kind)] = {"\n": "newline", "": "none", " ": "space", "\t": "tab", "\n    ": "blank_line_unterminated", "\n\n": "two_newlines"}[ending]
+        feats["{}_ending".format("extra" if is_extra else kind)] = {"\n": "newline", "": "none", " ": "space", "\t": "tab", "\n    ": "blank_line_unterminated", "\n\n": "two_newlines"}[ending]
         with open(fn, "w") as f:
             f.write(text)
+        if is_extra:
+            continue
         feats["{}_func_before".format(kind)] = func_before
         feats["{}_no_trailing_newline".format(kind)] = not text.endswith("\n")
     feats["pre"] = {k: v for k, v in p.pre.items()}
     feats["via_symlink"], feats["hand_written"] = via_symlink, hand_written
+    feats["extra_same_kind"] = [e["pre"] for e in p.extra]
     if via_symlink:
         p.alias = root.rstrip(os.sep) + "_lnk"
         os.symlink(root, p.alias)
         p.files = {k: os.path.join(p.alias, os.path.basename(f)) for k, f in p.files.items()}
+        for e in p.extra:
+            e["path"] = os.path.join(p.alias, os.path.basename(e["path"]))
     p.features = feats
     return p
 
